@@ -7,7 +7,7 @@ import ast
 import z3
 from . import ty
 from .ty import Int, Bool, NoneT, Str, Opt, Seq, Tup, List, Deque, Dict, Set, Obj, Opaque, Fun
-from .core import (Untranslatable, ContractError, Val, PyConst, PyTuple, BoundMethod, FuncRef, Closure, ProviderCall,
+from .core import (Unknown, Untranslatable, ContractError, Val, PyConst, PyTuple, BoundMethod, FuncRef, Closure, ProviderCall,
                    View, State, Outcome, Obligation, Heap, fresh, none_val, int_val, bool_val, type_heap_keys)
 
 EXC_PARENTS = {
@@ -116,6 +116,9 @@ class Executor:
         self.stmt_ord = {}
         self.cur_line = None
         self.inputs = {}
+        self.lenient = getattr(contract, "lenient", False)
+        self.muted = 0
+        self.view_st = None
 
     # ------------------------------------------------------------------ ids / obligations
     def oid(self, kind):
@@ -125,7 +128,7 @@ class Executor:
         return base if n == 0 else f"{base}~{n}"
 
     def oblige(self, oid, st, goal, note=""):
-        if self.spec:
+        if self.spec or self.muted:
             return
         o = Obligation(f"{self.c.qual}/{oid}", st.pc, goal, self.cur_line, note)
         o.inputs = dict(self.inputs)
@@ -173,6 +176,8 @@ class Executor:
 
     # ------------------------------------------------------------------ coercion
     def coerce(self, v, t, st):
+        if isinstance(v, Unknown):
+            return self.fresh_of_type(t, st, "unk")
         if isinstance(v, Val):
             if v.t == t:
                 return v
@@ -242,6 +247,8 @@ class Executor:
     # ------------------------------------------------------------------ truthiness
     def truth(self, v, st):
         """Python truth value of v as an SMT Bool."""
+        if isinstance(v, Unknown):
+            return fresh("unk", z3.BoolSort())
         if isinstance(v, Val):
             t = v.t
             if t == Bool:
@@ -326,6 +333,8 @@ class Executor:
 
     def contains(self, st, c, x):
         """`x in c` as SMT Bool."""
+        if isinstance(c, Unknown) or isinstance(x, Unknown):
+            return fresh("unk", z3.BoolSort())
         if isinstance(c, Val):
             if isinstance(c.t, (Dict, Set)):
                 x = self.coerce(x, c.t.k, st)
@@ -399,6 +408,10 @@ class Executor:
         """An iterable value as an indexable View (snapshot of the current state)."""
         if isinstance(v, View):
             return v
+        if isinstance(v, Unknown):
+            n = fresh("unk_len", z3.IntSort())
+            st.assume(n >= 0)
+            return View(n, lambda i: Unknown("elem"), None)
         if isinstance(v, PyTuple):
             items = v.items
             if not items:
@@ -410,7 +423,9 @@ class Executor:
         if isinstance(v, Val):
             t = v.t
             if isinstance(t, Seq):
-                return View(z3.Length(v.z), lambda i, v=v: self.seq_nth(v, i), t.elt)
+                w = View(self.seq_len(v), lambda i, v=v: self.seq_nth(v, i), t.elt)
+                w.src = v
+                return w
             if isinstance(t, List):
                 arr, off, n = self.list_arr(st, v), self.list_off(st, v), self.list_len(st, v)
                 st.assume(n >= 0)
@@ -431,8 +446,35 @@ class Executor:
                 self.assume_log("A5: set/dict iteration order is an arbitrary duplicate-free enumeration of the keys")
                 return View(n, lambda i: self.valid_ref(st, Val(t.k, ks[i])), t.k, distinct=True)
             if isinstance(t, Opt):
-                raise Untranslatable("iteration over Optional")
+                return self.view_of(self.coerce(v, t.elt, st), st)
         raise Untranslatable(f"not iterable: {v!r}")
+
+    def entails(self, st, z, ms=300):
+        """Cheap semantic test `pc |= z` used only to simplify encodings (never to discharge obligations)."""
+        zs = simp(z)
+        if z3.is_true(zs):
+            return True
+        if z3.is_false(zs):
+            return False
+        sol = z3.Solver()
+        sol.set("timeout", ms)
+        for h in st.pc:
+            if not z3.is_quantifier(h):
+                sol.add(h)
+        sol.add(z3.Not(zs))
+        try:
+            return sol.check() == z3.unsat
+        except z3.Z3Exception:
+            return False
+
+    def vat(self, view, i, st):
+        """Element i of a view; facts known about the element are assumed in st."""
+        saved = self.view_st
+        self.view_st = st
+        try:
+            return view.at(i)
+        finally:
+            self.view_st = saved
 
     def seq_nth(self, v, i):
         """Index a Seq value, pushing the index through its known structure."""
@@ -455,9 +497,11 @@ class Executor:
             if p[0] == "slice":   # base[a:]
                 base, a = p[1], p[2]
                 return self.seq_nth(base, i + a)
+            if p[0] == "slice2":   # base[a:b]
+                return self.seq_nth(p[1], i + p[2])
             if p[0] == "concat":
                 a, b = p[1], p[2]
-                la = z3.Length(a.z)
+                la = self.seq_len(a)
                 return Val(v.t.elt, z3.If(i < la, self.seq_nth(a, i).z, self.seq_nth(b, i - la).z))
             if p[0] == "map":
                 return p[1](i)
@@ -472,6 +516,8 @@ class Executor:
                 return 1 + self.seq_len(p[2])
             if p[0] == "slice":
                 return self.seq_len(p[1]) - p[2]
+            if p[0] == "slice2":
+                return p[3]
             if p[0] == "concat":
                 return self.seq_len(p[1]) + self.seq_len(p[2])
             if p[0] == "map":
@@ -488,11 +534,19 @@ class Executor:
         if z3.is_int_value(ns) and ns.as_long() <= 6:
             items = [self.coerce(self.guess_tuple(view.at(z3.IntVal(k)), st), et, st) for k in range(ns.as_long())]
             return self.seq_of_items(items, Seq(et))
-        r = fresh("seq", z3.SeqSort(et.sort()))
+        mi = getattr(view, "mapinfo", None)
+        if mi is not None:
+            import hashlib
+            key, src, caps = mi
+            nm = "map_" + hashlib.md5((key + et.name() + src.t.name()).encode()).hexdigest()[:10]
+            f = z3.Function(nm, src.z.sort(), *[c[1].z.sort() for c in caps], z3.SeqSort(et.sort()))
+            r = f(src.z, *[c[1].z for c in caps])
+        else:
+            r = fresh("seq", z3.SeqSort(et.sort()))
         i = fresh("i", z3.IntSort())
         s_in = st.copy()
         s_in.assume(z3.And(0 <= i, i < n))
-        body = self.coerce(self.guess_tuple(view.at(i), s_in), et, s_in).z
+        body = self.coerce(self.guess_tuple(self.vat(view, i, s_in), s_in), et, s_in).z
         extras = s_in.pc[len(st.pc) + 1:]
         st.assume(z3.Length(r) == n)
         st.assume(z3.ForAll([i], z3.Implies(z3.And(0 <= i, i < n), z3.And(*extras, r[i] == body))))
@@ -505,6 +559,8 @@ class Executor:
             return st.env[name]
         if name in st.ghost:
             return st.ghost[name]
+        if name == "result" and self.spec and getattr(self, "spec_result", None) is not None:
+            return self.spec_result
         if name in ("True", "False"):
             return bool_val(name == "True")
         if name in EXC_PARENTS or name in ("Exception", "BaseException"):
@@ -573,6 +629,8 @@ class Executor:
             yield self.attr(obj, e.attr, s, e), s
 
     def attr(self, obj, name, st, node=None):
+        if isinstance(obj, Unknown):
+            return Unknown("attr")
         if isinstance(obj, Val):
             t = obj.t
             if isinstance(t, Obj):
@@ -586,7 +644,13 @@ class Executor:
                     return outs[0][0]
                 if self.reg.field_type(t.cls, name) is not None:
                     return self.get_field(st, obj, name)
+                if self.lenient and self.reg.find_method(t.cls, name) is None and name not in self.c.pure_calls:
+                    return Unknown(f"undeclared attribute {t.cls}.{name}")
                 return BoundMethod(obj, name)
+            if isinstance(t, Opaque) and (t.nm, name) in self.reg.opaque_attrs:
+                rt = self.reg.opaque_attrs[(t.nm, name)]
+                f = z3.Function(f"attr_{t.nm}_{name}", t.sort(), rt.sort())
+                return Val(rt, f(obj.z))
             if isinstance(t, Tup) and t.names and name in t.names:
                 i = t.names.index(name)
                 return self.valid_ref(st, Val(t.elts[i], t.proj(obj.z, i)))
@@ -621,20 +685,20 @@ class Executor:
                     continue
                 s_stop = s1.copy()
                 s_stop.assume(z3.Not(go_on))
-                s_go = s1
+                s_go = s1.copy()
                 s_go.assume(go_on)
+                n0 = len(s_go.pc)
                 rest = list(rec(idx + 1, s_go))
-                # pure rest (state unchanged apart from pc): merge into one value
+                # pure rest (state unchanged apart from pc): merge into one value, written back into s1 in place
                 if len(rest) == 1 and self.same_heap(rest[0][1], s1) and isinstance(v, Val) and v.t == Bool \
-                        and isinstance(rest[0][0], Val) and rest[0][0].t == Bool and not self.raise_pending_since(s1):
+                        and isinstance(rest[0][0], Val) and rest[0][0].t == Bool:
                     rv, rs = rest[0]
-                    merged = State(rs.env, rs.heap, s_stop.pc[:-1] + [p for p in rs.pc[len(s_stop.pc):]], rs.next_ref,
-                                   rs.ghost, rs.labels)
-                    # extra assumptions made while evaluating the rest hold only under go_on: guard them
-                    extra = rs.pc[len(s_stop.pc):]
-                    merged.pc = s_stop.pc[:-1] + [z3.Implies(go_on, x) for x in extra]
+                    extra = rs.pc[n0:]
+                    # assumptions made while evaluating the rest hold only under go_on: guard them
+                    for x in extra:
+                        s1.assume(z3.Implies(go_on, x))
                     z = z3.And(tv, rv.z) if is_and else z3.Or(tv, rv.z)
-                    yield bool_val(z), merged
+                    yield bool_val(z), s1
                 else:
                     yield v, s_stop
                     yield from rest
@@ -658,6 +722,8 @@ class Executor:
                 raise Untranslatable("unary op")
 
     def as_int(self, v, st):
+        if isinstance(v, Unknown):
+            return Val(Int, fresh("unk", z3.IntSort()))
         if isinstance(v, Val):
             if v.t == Int:
                 return v
@@ -673,6 +739,8 @@ class Executor:
                 yield self.binop(e.op, l, r, s2), s2
 
     def binop(self, op, l, r, st):
+        if isinstance(l, Unknown) or isinstance(r, Unknown):
+            return Unknown("binop")
         # sequence concatenation
         lt = l.t if isinstance(l, Val) else None
         rt = r.t if isinstance(r, Val) else None
@@ -714,6 +782,9 @@ class Executor:
             return
         if self.spec:
             return          # contract expressions are assumed well defined; never constrain the state from them
+        if self.muted:
+            st.assume(z3.Not(c))
+            return
         s2 = st.copy()
         s2.assume(c)
         o = Outcome("raise", s2, exc=exc)
@@ -733,6 +804,8 @@ class Executor:
             yield from rec(0, l, [], s1)
 
     def compare(self, op, l, r, st):
+        if isinstance(l, Unknown) or isinstance(r, Unknown):
+            return fresh("unk", z3.BoolSort())
         if isinstance(op, (ast.In, ast.NotIn)):
             z = self.contains(st, r, l)
             return z if isinstance(op, ast.In) else z3.Not(z)
@@ -743,6 +816,8 @@ class Executor:
         return {ast.Lt: a.z < b.z, ast.LtE: a.z <= b.z, ast.Gt: a.z > b.z, ast.GtE: a.z >= b.z}[type(op)]
 
     def equal(self, l, r, st, identity=False):
+        if isinstance(l, Unknown) or isinstance(r, Unknown):
+            return fresh("unk", z3.BoolSort())
         if isinstance(l, PyTuple) and isinstance(r, PyTuple):
             if len(l.items) != len(r.items):
                 return z3.BoolVal(False)
@@ -780,6 +855,8 @@ class Executor:
                 return r.z == r.t.some(l.z)
             if {l.t, r.t} == {Int, Bool}:
                 return self.as_int(l, st).z == self.as_int(r, st).z
+            if (isinstance(l.t, Fun) and r.t == Int) or (isinstance(r.t, Fun) and l.t == Int):
+                return l.z == r.z          # the value of a provider is its identity
             if isinstance(l.t, Seq) and isinstance(r.t, Tup) or isinstance(l.t, Tup) and isinstance(r.t, Seq):
                 a = self.coerce(l, r.t, st) if isinstance(r.t, Seq) else l
                 b = self.coerce(r, l.t, st) if isinstance(l.t, Seq) else r
@@ -832,6 +909,8 @@ class Executor:
             yield from outs_f
 
     def merge_vals(self, c, a, b, st):
+        if isinstance(a, Unknown) or isinstance(b, Unknown):
+            return Unknown("merge")
         try:
             if isinstance(a, Val) and isinstance(b, Val):
                 if a.t == b.t:
@@ -857,7 +936,8 @@ class Executor:
                 yield from self.ev_slice(base, e.slice, s1)
                 continue
             for idx, s2 in self.ev(e.slice, s1):
-                self.cur_site = self.site(e)
+                if not self.spec:
+                    self.cur_site = self.site(e)
                 yield self.index(base, idx, s2, e), s2
 
     def ev_slice(self, base, sl, st):
@@ -870,6 +950,8 @@ class Executor:
                 yield self.slice(base, lo, hi, s2), s2
 
     def slice(self, base, lo, hi, st):
+        if isinstance(base, Unknown) or isinstance(lo, Unknown) or isinstance(hi, Unknown):
+            return Unknown("slice")
         if isinstance(base, PyTuple):
             def lit(x):
                 if x is None:
@@ -880,12 +962,16 @@ class Executor:
             if a != "sym" and b != "sym":
                 return PyTuple(base.items[a:b])
             base = self.guess_tuple(base, st)
+        if isinstance(base, Val) and isinstance(base.t, Opt):
+            base = self.coerce(base, base.t.elt, st)
         if isinstance(base, Val) and isinstance(base.t, Seq):
             n = self.seq_len(base)
             def norm(x, default):
                 if x is None:
                     return default
                 z = self.as_int(x, st).z
+                if self.entails(st, z3.And(z >= 0, z <= n)):
+                    return z
                 z = z3.If(z < 0, z + n, z)
                 return z3.If(z < 0, 0, z3.If(z > n, n, z))
             a = simp(norm(lo, z3.IntVal(0)))
@@ -895,14 +981,16 @@ class Executor:
                 if base.parts and base.parts[0] == "items" and z3.is_int_value(a):
                     return self.seq_of_items(base.parts[1][a.as_long():], base.t)
                 lo_z = self.as_int(lo, st).z
-                nonneg = simp(lo_z >= 0)
-                parts = ("slice", base, lo_z) if z3.is_true(nonneg) or isinstance(lo_z, z3.ArithRef) else None
-                return Val(base.t, z3.SubSeq(base.z, a, n - a), parts=parts if z3.is_true(nonneg) else None)
+                inb = self.entails(st, z3.And(lo_z >= 0, lo_z <= n))
+                return Val(base.t, z3.SubSeq(base.z, a, n - a), parts=("slice", base, lo_z) if inb else None)
             b = norm(hi, n)
-            return Val(base.t, z3.SubSeq(base.z, a, z3.If(b > a, b - a, 0)))
+            ln = b - a if self.entails(st, b >= a) else z3.If(b > a, b - a, 0)
+            return Val(base.t, z3.SubSeq(base.z, a, ln), parts=("slice2", base, a, ln))
         raise Untranslatable(f"slice of {base!r}")
 
     def index(self, base, idx, st, node=None):
+        if isinstance(base, Unknown) or isinstance(idx, Unknown):
+            return Unknown("index")
         if isinstance(base, PyTuple):
             z = simp(self.as_int(idx, st).z)
             if z3.is_int_value(z):
@@ -918,6 +1006,8 @@ class Executor:
                 n = self.seq_len(base)
                 self.fork_raise(st, z3.Or(i < -n, i >= n), "IndexError")
                 isimp = simp(i)
+                if self.spec:
+                    return self.seq_nth(base, i)
                 if z3.is_int_value(isimp) and isimp.as_long() >= 0 or z3.is_true(simp(i >= 0)):
                     return self.valid_ref(st, self.seq_nth(base, i))
                 return self.valid_ref(st, self.seq_nth(base, z3.If(i < 0, i + n, i)))
@@ -934,6 +1024,8 @@ class Executor:
                 n = self.list_len(st, base)
                 st.assume(n >= 0)
                 self.fork_raise(st, z3.Or(i < -n, i >= n), "IndexError")
+                if self.spec:
+                    return self.list_at_raw(st, base, i)
                 return self.list_at_raw(st, base, z3.If(i < 0, i + n, i))
             if isinstance(t, Dict):
                 k = self.coerce(idx, t.k, st)
@@ -964,10 +1056,11 @@ class Executor:
         elt_node = e.elt if not isinstance(e, ast.DictComp) else None
 
         def bind(i, s):
-            x = view.at(i)
+            x = self.vat(view, i, s)
             env = dict(s.env)
             s2 = State(env, s.heap, s.pc, s.next_ref, s.ghost, s.labels)
             self.assign_target(g.target, x, s2)
+            env["_ci"] = int_val(i)          # ghost: position in the comprehension's source (for proof hints)
             return s2
 
         return view, bind, g.ifs, s1
@@ -1012,15 +1105,95 @@ class Executor:
         st.pc[:] = s1.pc
         st.heap = s1.heap
         if ifs:
-            return ("filtered", view, bind, ifs, e.elt)
+            drop = self.drop_index_pattern(e, st)
+            if drop is None:
+                return ("filtered", view, bind, ifs, e.elt)
+            # (x for i, x in enumerate(src) if i != c): the source with position c removed
+            c = drop
+            n = view.length
+            inr = z3.And(0 <= c, c < n)
+
+            def at_drop(j):
+                k = z3.If(z3.And(inr, j >= c), j + 1, j)
+                self.muted += 1
+                try:
+                    s2 = bind(k, st)
+                    v, _ = self.ev1(e.elt, s2)
+                finally:
+                    self.muted -= 1
+                return v
+            return View(z3.If(inr, n - 1, n), at_drop, None)
+        if any(isinstance(x, ast.Call) for x in ast.walk(e.elt)) and not self.spec and not self.muted:
+            # generators are treated eagerly (A4): evaluate the element once for an arbitrary index so that the
+            # obligations and provider events of the calls inside it are generated
+            i = fresh("ci", z3.IntSort())
+            s_in = st.copy()
+            s_in.assume(z3.And(0 <= i, i < view.length))
+            s2 = bind(i, s_in)
+            for _ in self.ev(e.elt, s2):
+                pass
+            if "$trace" in s2.ghost:
+                st.ghost = dict(st.ghost)
+                st.ghost["$trace"] = s2.ghost["$trace"]
 
         def at(i):
-            s2 = bind(i, st)
-            v, s3 = self.ev1(e.elt, s2)
-            for x in s3.pc[len(st.pc):]:
-                st.assume(x) if s3.pc is not st.pc else None
+            self.muted += 1
+            try:
+                s2 = bind(i, st)
+                v, s3 = self.ev1(e.elt, s2)
+            finally:
+                self.muted -= 1
             return v
-        return View(view.length, at, None)
+        out = View(view.length, at, None)
+        out.mapinfo = self.map_info(e, view, st)
+        return out
+
+    PURE_FUNCS = {"len", "sum", "abs", "min", "max", "tuple", "int", "bool"}
+
+    def map_info(self, e, view, st):
+        """If the comprehension is a pure elementwise function of an immutable source sequence, describe it so that
+        equal sources give equal results (an uninterpreted map function instead of a fresh constant)."""
+        src = getattr(view, "src", None)
+        if src is None:
+            return None
+        g = e.generators[0]
+        tnames = {x.id for x in ast.walk(g.target) if isinstance(x, ast.Name)}
+        caps = []
+        for x in ast.walk(e.elt):
+            if isinstance(x, ast.Name) and x.id not in tnames and x.id not in self.PURE_FUNCS:
+                v = st.env.get(x.id, st.ghost.get(x.id))
+                if not (isinstance(v, Val) and not v.t.mutable and v.t != NoneT):
+                    return None
+                if x.id not in [c[0] for c in caps]:
+                    caps.append((x.id, v))
+            if isinstance(x, ast.Call):
+                f = x.func
+                ok = (isinstance(f, ast.Name) and f.id in self.PURE_FUNCS) or \
+                     (isinstance(f, ast.Attribute) and isinstance(f.value, ast.Name) and f.value.id in tnames)
+                if not ok:
+                    return None
+            if isinstance(x, (ast.Attribute,)) and not (isinstance(x.value, ast.Name) and x.value.id in tnames):
+                return None
+            if isinstance(x, (ast.Lambda, ast.GeneratorExp, ast.ListComp, ast.Yield, ast.Await)):
+                return None
+        key = ast.dump(e.elt) + "|" + ast.dump(g.target)
+        return (key, src, caps)
+
+    def drop_index_pattern(self, e, st):
+        g = e.generators[0]
+        if not (isinstance(g.iter, ast.Call) and isinstance(g.iter.func, ast.Name) and g.iter.func.id == "enumerate"
+                and len(g.iter.args) == 1 and isinstance(g.target, ast.Tuple) and len(g.target.elts) == 2
+                and isinstance(g.target.elts[0], ast.Name) and len(g.ifs) == 1):
+            return None
+        c = g.ifs[0]
+        if not (isinstance(c, ast.Compare) and len(c.ops) == 1 and isinstance(c.ops[0], ast.NotEq)
+                and isinstance(c.left, ast.Name) and c.left.id == g.target.elts[0].id):
+            return None
+        tnames = {x.id for x in ast.walk(g.target) if isinstance(x, ast.Name)}
+        if any(isinstance(x, ast.Name) and x.id in tnames for x in ast.walk(c.comparators[0])):
+            return None
+        v, _ = self.ev1(c.comparators[0], st)
+        return self.as_int(v, st).z
 
     def iter_value(self, v, st):
         """Normalise things one can iterate over into Val / View / PyTuple."""
